@@ -78,13 +78,19 @@ class limit:
 
     def __enter__(self):
         import signal
+        import time
         self.old = signal.signal(signal.SIGALRM, self._raise)
-        signal.setitimer(signal.ITIMER_REAL, self.seconds)
+        self.t0 = time.time()
+        self.outer = signal.setitimer(signal.ITIMER_REAL, self.seconds)   # (remaining, interval) of an outer deadline
 
     def __exit__(self, *exc):
         import signal
+        import time
         signal.setitimer(signal.ITIMER_REAL, 0)
         signal.signal(signal.SIGALRM, self.old)
+        rem, itv = self.outer
+        if rem > 0:     # re-arm the family deadline of vlib/runner.py
+            signal.setitimer(signal.ITIMER_REAL, max(0.05, rem - (time.time() - self.t0)), itv)
         return False
 
 
